@@ -347,6 +347,11 @@ func runClientConnExecution(t *testing.T, seed int64, log *traceLog) {
 				synctest.Wait()
 			} else if by == "close" {
 				time.Sleep(d)
+				if rng.Intn(2) == 0 {
+					// the base socket fails from now on (network unreachable): Close cannot send its Refresh, the socket
+					// is closed all the same and blocked readers are released
+					cconn.WriteErr = func([]byte, net.Addr) error { return errInjectedWrite }
+				}
 				log.add(map[string]any{"e": "Close"})
 				_ = relay.Close()
 				synctest.Wait()
